@@ -1,12 +1,42 @@
 //! One module per property (C01..C20).
 
 use crate::Property;
+pub mod sendwl;
+pub mod labelops;
+pub mod frames;
 
-pub mod c14;
+macro_rules! props {
+    ($($m:ident => $id:expr),* $(,)?) => {
+        $(pub mod $m;)*
+        pub fn lookup(id: &str) -> Option<&'static dyn Property> {
+            match id {
+                $($id => Some(&$m::P),)*
+                _ => None,
+            }
+        }
+        pub fn all_ids() -> Vec<&'static str> { vec![$($id),*] }
+    };
+}
 
-pub fn lookup(id: &str) -> Option<&'static dyn Property> {
-    match id {
-        "C14" => Some(&c14::P),
-        _ => None,
-    }
+props! {
+    c01 => "C01",
+    c02 => "C02",
+    c03 => "C03",
+    c04 => "C04",
+    c05 => "C05",
+    c06 => "C06",
+    c07 => "C07",
+    c08 => "C08",
+    c09 => "C09",
+    c10 => "C10",
+    c11 => "C11",
+    c12 => "C12",
+    c13 => "C13",
+    c14 => "C14",
+    c15 => "C15",
+    c16 => "C16",
+    c17 => "C17",
+    c18 => "C18",
+    c19 => "C19",
+    c20 => "C20",
 }
